@@ -53,6 +53,69 @@ PARAMS = [
 K = ErrorClass.TRANSIENT
 
 
+FALLBACK_SHAPES = ("ctx-lambda", "legacy", "legacy-method", "ctx-two-knobs", "ctx-one-knob", "object", "method", "partial", "renormalised", "renormalised-rao", "adaptive-object")
+
+
+def mk_fallback(shape, get):
+    """A fallback strategy answering get() in one of the documented signatures: (ctx) with exactly one required positional parameter
+    (optional knobs allowed), the legacy (attempt, klass, prev_sleep_s), callable objects, bound methods, partials, and strategies
+    handed back by the library itself (the `.fallback` of an existing AdaptiveStrategy, an AdaptiveStrategy, a retry_after_or)."""
+    import functools
+
+    if shape == "legacy":
+        def legacy(attempt, klass, prev_sleep_s):
+            return get()
+
+        return legacy
+    if shape == "legacy-method":
+        class Table:
+            def delay(self, attempt, klass, prev_sleep_s):
+                return get()
+
+        return Table().delay
+    if shape == "ctx-two-knobs":
+        def linear(ctx, step_s=0.5, max_s=4.0):
+            assert hasattr(ctx, "attempt"), ctx  # survives -O stripping only as a no-op: the attribute read below decides
+            ctx.attempt
+            return get()
+
+        return linear
+    if shape == "ctx-one-knob":
+        def scaled(ctx, scale=1.0):
+            ctx.attempt
+            return get()
+
+        return scaled
+    if shape == "object":
+        class Schedule:
+            def __call__(self, ctx):
+                ctx.attempt
+                return get()
+
+        return Schedule()
+    if shape == "method":
+        class Tuner:
+            def delay(self, ctx, floor_s=0.0):
+                ctx.attempt
+                return get()
+
+        return Tuner().delay
+    if shape == "partial":
+        def knobbed(ctx, scale):
+            ctx.attempt
+            return get()
+
+        return functools.partial(knobbed, scale=2.0)
+    if shape == "renormalised":
+        # derive a variant that shares the fallback of an existing adaptive strategy (a public dataclass field)
+        return adaptive(mk_fallback("legacy", get), window_s=5.0).fallback
+    if shape == "renormalised-rao":
+        return adaptive(mk_fallback("ctx-two-knobs", get), window_s=5.0).fallback
+    if shape == "adaptive-object":
+        return adaptive(mk_fallback("ctx-lambda", get), window_s=5.0, target_success=1e-9, min_multiplier=1.0, max_multiplier=1.0)
+    return lambda c: get()
+
+
 class Draws:
     def __init__(self, rng, ctx):
         self.rng = rng
@@ -156,7 +219,7 @@ def work(ctx, tier):
             j = rng.choice(JIT) if rng.random() < 0.6 else rng.uniform(0, 10)
             rem = rng.choice(REM) if rng.random() < 0.6 else rng.uniform(0, 100)
             fb = rng.choice(FB)
-            _rao_case(ctx, viol, draws, hint, j, rem, fb, rng.choice(MODES))
+            _rao_case(ctx, viol, draws, hint, j, rem, fb, rng.choice(MODES), shape=FALLBACK_SHAPES[i % len(FALLBACK_SHAPES)] if i % 3 == 0 else "ctx-lambda")
 
         # ---------------------------------------------------------------- adaptive
         n_hist = (1500 if tier == "quick" else 40000) // ctx.nshards
@@ -205,13 +268,14 @@ def _jitter_case(ctx, viol, draws, name, f, fn, g, base, mx, attempt, prev, mode
     ctx.add_hash("nontrivial", [name, base, mx, attempt if attempt < 2**63 else str(attempt), mode if mode != "seeded" else repr(r)])
 
 
-def _rao_case(ctx, viol, draws, hint, j, rem, fb, mode):
+def _rao_case(ctx, viol, draws, hint, j, rem, fb, mode, shape="ctx-lambda"):
     draws.mode = mode
-    case = {"strategy": "retry_after_or", "hint": hint, "jitter_s": j, "remaining_s": rem, "fallback_returns": fb, "draw": mode}
+    case = {"strategy": "retry_after_or", "hint": hint, "jitter_s": j, "remaining_s": rem, "fallback_returns": fb, "draw": mode, "fallback_shape": shape}
     ctx.cnt["eval:retry_after_or"] += 1
     ctx.cnt["evaluations"] += 1
+    ctx.cnt["fallback_shape:" + shape] += 1
     try:
-        s = retry_after_or(lambda c: fb, jitter_s=j)
+        s = retry_after_or(mk_fallback(shape, lambda: fb), jitter_s=j)
         r = s(BackoffContext(attempt=1, classification=Classification(klass=ErrorClass.RATE_LIMIT, retry_after_s=hint), prev_sleep_s=None, remaining_s=rem, cause="exception"))
     except BaseException as x:  # noqa: BLE001
         viol("strategy-raised:" + type(x).__name__, f"retry_after_or raised {type(x).__name__}: {x} for {case}", case)
@@ -443,9 +507,15 @@ def _adaptive_history(ctx, viol, world, rng, i):
     mn = rng.choice([1.0, 1.0, 1.5, 3.0])
     mxm = rng.choice([mn, mn + 1.0, 5.0 if mn <= 5 else mn, 1e6])
     fbv = [rng.choice([0.0, 1.0 / 64, 0.25, 1.0, 7.0, 1e3, 1e300])]
-    st = adaptive(lambda c: fbv[0], window_s=window, target_success=target, min_multiplier=mn, max_multiplier=mxm)
-    cfgd = {"window_s": window, "target_success": target, "min_multiplier": mn, "max_multiplier": mxm}
+    shape = FALLBACK_SHAPES[(i // 2) % len(FALLBACK_SHAPES)] if i % 2 else "ctx-lambda"
+    cfgd = {"window_s": window, "target_success": target, "min_multiplier": mn, "max_multiplier": mxm, "fallback_shape": shape}
     hist = []
+    ctx.cnt["fallback_shape:" + shape] += 1
+    try:
+        st = adaptive(mk_fallback(shape, lambda: fbv[0]), window_s=window, target_success=target, min_multiplier=mn, max_multiplier=mxm)
+    except BaseException as x:  # noqa: BLE001
+        viol("strategy-raised:" + type(x).__name__, f"adaptive(<{shape} fallback>) raised {type(x).__name__}: {x}; {cfgd}", {"cfg": cfgd, "history": hist})
+        return
     ctxo = BackoffContext(attempt=1, classification=Classification(klass=K), prev_sleep_s=None, remaining_s=None, cause="exception")
     for step in range(rng.randint(1, 40)):
         op = rng.random()
@@ -542,7 +612,7 @@ def replay(data):
         if case["strategy"] == "retry_after_or":
             def nn(v):
                 return {"nan": math.nan, "inf": math.inf, "-inf": -math.inf}.get(v, v)
-            _rao_case(_Shim(bad), lambda k, m, c: bad.append((k, m)), d, nn(case["hint"]), nn(case["jitter_s"]), nn(case["remaining_s"]), nn(case["fallback_returns"]), case["draw"])
+            _rao_case(_Shim(bad), lambda k, m, c: bad.append((k, m)), d, nn(case["hint"]), nn(case["jitter_s"]), nn(case["remaining_s"]), nn(case["fallback_returns"]), case["draw"], shape=case.get("fallback_shape", "ctx-lambda"))
         else:
             fac = {"decorrelated_jitter": decorrelated_jitter, "equal_jitter": equal_jitter, "token_backoff": token_backoff}[case["strategy"]]
             g = {"decorrelated_jitter": None, "equal_jitter": 2.0, "token_backoff": 1.5}[case["strategy"]]
